@@ -165,7 +165,7 @@ pub fn long_oracle<E: Engine>(_ctx: &RunCtx, spec: &LongSpec, log: &mut CaseLog)
     Ok(())
 }
 
-fn long_sub<E: Engine>(cases: (usize, usize)) -> Sub {
+pub fn long_sub<E: Engine>(cases: (usize, usize)) -> Sub {
     sub(
         &format!("{}/honest-long-mixed-batches", E::NAME),
         crate::runner::no_fixed,
